@@ -47,9 +47,41 @@ Print Assumptions C08_decoding_ignores_comments.
 
 Theorem C08_text_is_concatenation_of_all_character_data : forall ns kids,
   text_of_kids (flat_map (view ns) kids) =
-  fold_right String.append "" (map (fun n => match n with Text s => cr_normalise s | _ => "" end) kids).
+  fold_right String.append "" (map (fun n => match n with Text s => s | _ => "" end) kids).
 Proof. exact text_of_view_kids. Qed.
 Print Assumptions C08_text_is_concatenation_of_all_character_data.
+
+(* what validation decodes are the values of the (verified) element, U+000D, TAB and LF included: xmlUnmarshalElement writes
+   the element with CanonicalText / CanonicalAttrVal (since 2164cf6; C08_source_xmlUnmarshalElement_writes_values_canonically
+   below), so these characters go out as character references and the decoder gives them back
+   (C08_canonical_text_recovers_value: the reader on the canonical escaper's output is the identity).
+   (1) the attribute fields of the root are the last attribute of that name, exactly; (2) character data: the theorem above;
+   (3) a document with &#13; &#9; &#10; in InResponseTo and &#13;&#10; .. &#9;&#xD; in the Issuer, from the bytes to the
+   struct, through both serialisations: the repaired code reports the element's values (as the pre-decoder does), the
+   original code reported them end-of-line normalised. *)
+From V Require Import Generated P_Schema P_C20 XmlTok P_XmlTok P_XmlTokC20 Canon.
+Theorem C08_decoded_values_keep_carriage_returns :
+  (forall root r, unmarshal_response root = Ok r ->
+     r_id r = element_attr "ID" root /\ r_in_response_to r = element_attr "InResponseTo" root /\
+     r_destination r = element_attr "Destination" root /\ r_version r = element_attr "Version" root) /\
+  (read_tree crs_doc = Ok (crs_tree crs_attr_value crs_text_value) /\
+   (match unmarshal_response (crs_tree crs_attr_value crs_text_value) with Ok r => Some (r_in_response_to r, r_issuer r) | Err _ => None end)
+     = Some (crs_attr_value, Some crs_text_value) /\
+   (match predecode_bytes crs_doc with Ok b => Some (br_in_response_to b, br_issuer b) | Err _ => None end)
+     = Some (crs_attr_value, Some crs_text_value) /\
+   read_tree (c14n_write (crs_tree crs_attr_value crs_text_value)) = Ok (crs_tree crs_attr_value crs_text_value) /\
+   (match unmarshal_response_original (crs_tree crs_attr_value crs_text_value) with Ok r => Some (r_in_response_to r, r_issuer r) | Err _ => None end)
+     = Some (("_q" ++ lf1 ++ tab1 ++ lf1 ++ "x")%string, Some ("idp" ++ lf1 ++ "a" ++ tab1 ++ lf1)%string) /\
+   read_tree (Build.etree_write (crs_tree crs_attr_value crs_text_value))
+     = Ok (crs_tree ("_q" ++ lf1 ++ tab1 ++ lf1 ++ "x")%string ("idp" ++ lf1 ++ "a" ++ tab1 ++ lf1)%string)).
+Proof. exact (conj response_root_attributes_exact decoded_values_keep_carriage_returns_example). Qed.
+Print Assumptions C08_decoded_values_keep_carriage_returns.
+
+(* tie to the source text of this run: the write settings read off xmlUnmarshalElement's body select that view *)
+Theorem C08_source_xmlUnmarshalElement_writes_values_canonically : forall sch name root,
+  unmarshal_element_source sch name root = unmarshal_element sch name root.
+Proof. exact source_xmlUnmarshalElement_is_the_model. Qed.
+Print Assumptions C08_source_xmlUnmarshalElement_writes_values_canonically.
 
 (* ---- the decode schema extracted from /repo's struct tags on this run IS the SAML-core binding table ---- *)
 From V Require Import SchemaDefs Generated SamlSchema P_SamlSchema.
